@@ -16,7 +16,9 @@ LEVEL = "exploration"
 RULE = ("texts of grammar G (DESIGN section 3): (1) model programs of vf/gen.py rendered under a drawn style, with 0-3 catalogued faults "
         "planted and 0-8 token/character level mutations; (2) windows of 5-60 lines of the practice corpus and the source snippets of "
         "tests/test_compiler.py under the same mutations; (3, thorough tier) a coverage-guided atheris campaign whose bytes select a seed "
-        "text and a mutation sequence. Every text is assembled under FilterHandler(BareHandler) and FilterHandler(GraphicalHandler); the "
+        "text and a mutation sequence; (4) a statement grid, enumerated: every directive, 20 mnemonics and 22 other statement heads x 87 "
+        "operand shapes (single operands in four contexts: plain, .repeat body, .repeat with an address-dependent count, after .link; "
+        "operand pairs with ', ' and ' ' between them - all in the thorough tier, a seed-chosen eighth in the quick tier). Every text is assembled under FilterHandler(BareHandler) and FilterHandler(GraphicalHandler); the "
         "outcome must be success or failure with >= 1 error diagnostic. Violations: any other exception (what main_cli prints as "
         "'unexpected internal compiler error'), failure without an error diagnostic, and a run that exceeds 60 s in a fresh "
         "subprocess after exceeding the 5 s in-process watchdog (runs classified slow-but-finite are counted as inconclusive). "
@@ -30,7 +32,7 @@ PRACTICE = os.path.join(core.REPO, "tests", "practice")
 VOCAB = (["mov", "clr", "br", "sob", "jsr", "rts", "emt", "mul", "ldf", "stf", "push", ".word", ".byte", ".ascii", ".asciz", ".rad50", ".blkb", ".even", ".align",
           ".repeat", ".include", ".link", ".end", ".once", ".extern", "all", ".error", ".title", "make_bin", "make_wav", "insert_file", ".dword", "r0", "r7", "sp",
           "pc", "ac0", "ac5", "%", "^C", "^R", "^X", "^B", "<0>", "y = y"] + list(", : = ( ) < > { } # @ % ^ ' \" / \\ ; . + - * ! | & _ $".split(" ")) + ["<<", ">>", "==", "::", "\n", "\t", " "])
-ALPHABET = "abxyzRQ_$.,:;=()<>{}#@%^'\"/\\+-*!|&~ \t\n\x00éЖ€\r\f\v\xa0\u2028\x85\x1c\u0d6f\u00b2\u0663"
+ALPHABET = "abxyzRQ_$.,:;=()<>{}#@%^'\"/\\+-*!|&~ \t\n\x00éЖ€\r\f\v\xa0\u2028\x85\x1c\u0d6f\u00b2\u0663\u212a\u017f\u0130"
 
 TOKEN = re.compile(r"[A-Za-z_$.][A-Za-z_0-9$.]*|\d[A-Za-z_0-9$.]*|<<|>>|==|::|\s+|.", re.S)
 
@@ -228,6 +230,62 @@ def corpus_case(draw):
     return {"kind": "texts", "texts": [apply_mutations(text, muts)], "charset": "bk", "meta": {"source": "corpus-" + name.split("/")[0], "planted": [], "mutations": len(muts)}}
 
 
+# ---------------------------------------------------------------------------
+# statement grid: every statement head x operand shape x separator x context, enumerated
+
+GRID_OPERANDS = ["", "1", "x", "lab", "undef", "#1", "#x", "@#x", "@#lab", "(r1)", "(r1)+", "-(sp)", "@(r2)+", "@-(r3)", "2(r3)", "@x(r4)", "x+2(r1)", "-x(r2)",
+                 "(1)", "(1)+2", "(x)*2", "(1)(2)", "(x)", "<1>", "<x+1>", "<lab>", "x+", "-x", "-lab", "1$", "1:", "\"ab\"", "'a'", "'a", "/ab/", "\"ab\"<12>",
+                 "^Rabc", "^X1f", "^B101", "^C1", "1.", "0x1f", "8", "r1", "%1", "%x", "%lab", "ac1", "sp", "{ nop }", "{ .word . }", "all", ".", ".+2", "x==1", "x=1", "a b",
+                 "10/0", "x/lab", "lab/2", "lab*2", "1<<x", "lab-lab", "lab+lab", "x:", "@@x", "##1", "@r1", "@lab", "(lab)", "lab(r1)", "(r1)(r2)", "-(1)", "#", "@", ",",
+                 "<20000000000000>", "/zz/<20000000000000>", "<-1>", "^R\u212a", "^Ra\u017f", "\"\u0131\"", "'\u212a", "1\u00b2", "\u0d6f", "<0>", "/a/<0>/b/"]
+GRID_MNEMONICS = ["nop", "clr", "mov", "jsr", "mul", "xor", "br", "sob", "rts", "spl", "mark", "emt", "ldf", "stf", "ldexp", "stcfi", "push", "call", "jmp", "cmpb"]
+GRID_OTHER = ["x", "lab", "undef", "1", "-1", "'a", ".", "x:", "1$:", "x =", "x ==", "lab::", "lab =", ". =", "1$", "r1", "%", "#1", "@x", "(x)", "<x>", "\"ab\""]
+GRID_CONTEXTS = ["plain", "repeat", "lazy-repeat", "linked"]
+
+
+def grid_heads():
+    p = driver.pd()
+    from importlib import import_module
+    b = import_module("pdpy11.builtins")
+    return sorted(b.metacommands) + GRID_MNEMONICS + GRID_OTHER
+
+
+def grid_text(head, ops, sep, context):
+    stmt = head + (" " if ops and ops[0] else "") + sep.join(ops)
+    pre = "x = 5\nlab:\tnop\n"
+    post = "\t.word x, lab\n"
+    if context == "plain":
+        return pre + "\t" + stmt + "\n" + post
+    if context == "repeat":
+        return pre + "\t.repeat 2 {\n\t\t" + stmt + "\n\t}\n" + post
+    if context == "lazy-repeat":
+        return pre + "\t.repeat lab / 1000 {\n\t\t" + stmt + "\n\t}\n" + post
+    return "\t.link 2000\n" + pre + "\t" + stmt + "\n" + post
+
+
+def grid_cases(tier, seed):
+    """the enumeration: all single-operand statements in all contexts; operand pairs in the plain and lazy-repeat contexts
+    (quick tier: one eighth of the pairs, the eighth chosen by the seed)"""
+    heads = grid_heads()
+    for head in heads:
+        for o in GRID_OPERANDS:
+            for context in GRID_CONTEXTS:
+                yield head, [o], ", ", context
+    n = 0
+    for head in heads:
+        for o1 in GRID_OPERANDS:
+            if not o1:
+                continue
+            for o2 in GRID_OPERANDS:
+                if not o2:
+                    continue
+                for sep in (", ", " "):
+                    n += 1
+                    if tier == "quick" and (n + seed) % 8:
+                        continue
+                    yield head, [o1, o2], sep, "plain" if n % 3 else "lazy-repeat"
+
+
 def judge(case):
     files = [(f"/vf/t{i}.mac", t) for i, t in enumerate(case["texts"])]
     outs = probe(files, case.get("charset", "bk"))
@@ -241,6 +299,8 @@ def shards(tier):
     specs = []
     for i in range(k):
         specs.append({"part": "G" if i % 4 != 3 else "corpus", "i": i, "examples": n // k})
+    for i in range(k):
+        specs.append({"part": "grid", "i": i, "n": k, "tier": tier})
     if tier == "thorough":
         for i in range(16):
             specs.append({"part": "atheris", "i": i, "seconds": 300, "corpus": "empty" if i % 2 else "seeds"})
@@ -251,6 +311,21 @@ def run_shard(spec, ctx):
     if spec["part"] == "atheris":
         from .. import fuzz08
         fuzz08.campaign(ctx, spec)
+        return
+    if spec["part"] == "grid":
+        for j, (head, ops, sep, context) in enumerate(grid_cases(spec["tier"], ctx.seed)):
+            if j % spec["n"] != spec["i"]:
+                continue
+            text = grid_text(head, ops, sep, context)
+            case = {"kind": "texts", "texts": [text], "charset": "bk", "meta": {"source": "grid", "planted": [], "mutations": 0}}
+            res, label, outs = judge(case)
+            reached = outs[0].kind in ("ok", "error") and not any(r[0] == "critical" for r in outs[0].reports)
+            if label.startswith("inconclusive"):
+                ctx.exclude(label)
+            ctx.case(text, reached, ["src-grid", "class-" + label, "grid-" + context, f"grid-operands-{len(ops)}"],
+                     sample={"source": "grid", "text": text, "class": label} if j % 4001 == 7 else None, evaluations=2)
+            if res:
+                ctx.fail(res[0], res[1] + "\n--- text\n" + text, case)
         return
     strat = g_case() if spec["part"] == "G" else corpus_case()
 
